@@ -477,6 +477,26 @@ def respell(rng, case):
     return variant
 
 
+def respell_header(rng, case):
+    """-> (base, variant) or None.  A residue name every atom of a link carries can be written ONCE in the link
+    header (`resname "A"`): vermouth then applies it to every atom of the link and to every `[ non-edges ]` target.
+    base = the attribute spelled out on each atom and each non-edge target, variant = the header spelling."""
+    base, variant = copy.deepcopy(case), copy.deepcopy(case)
+    changed = False
+    for lb, lv in zip(base["links"], variant["links"]):
+        names = [attrs.get("resname") for _k, attrs in lb["atoms"]]
+        if not names or len(set(names)) != 1 or not isinstance(names[0], str) or "|" in names[0] or (lb.get("molmeta") or {}):
+            continue
+        if rng.random() < 0.3:
+            continue
+        lb["nonedges"] = [[e[0], e[1], dict((e[2] if len(e) > 2 and e[2] else {}), resname=names[0])] for e in lb["nonedges"]]
+        lv["header"] = {"resname": names[0]}
+        for _k, attrs in lv["atoms"]:
+            attrs.pop("resname")
+        changed = True
+    return (base, variant) if changed else None
+
+
 def run_link_spelling(ctx, count):
     """A link definition means the same however its sections are ordered and wherever the atom attributes are
     written: the repository's parsers must produce the same links (atoms with attributes, interactions, labelled
@@ -489,6 +509,10 @@ def run_link_spelling(ctx, count):
         case = G.gen_case(rng, max_res=ctx.budget(5, 8))
         if case["links"]:
             pairs.append((case, respell(rng, case)))
+            if case["links"] and any(l["nonedges"] or l["patterns"] for l in case["links"]) or rng.random() < 0.3:
+                header = respell_header(rng, case)
+                if header is not None:
+                    pairs.append(header)
     run_link_spelling_pairs(ctx, pairs)
 
 
@@ -511,13 +535,14 @@ def run_link_spelling_pairs(ctx, pairs):
             continue
         except Exception as err:  # pylint: disable=broad-except
             ctx.oracle_fail("pipeline-raises", "respelled link definitions (section order %s): parser / pipeline raised %s: %s"
-                            % ([l["section_order"] for l in variant["links"]], type(err).__name__, str(err)[:200]), replay)
+                            % ([l.get("section_order") for l in variant["links"]], type(err).__name__, str(err)[:200]), replay)
             continue
         (links_a, out_a), (links_b, out_b) = results
         if links_a != links_b:
             idx = next(i for i, (x, y) in enumerate(zip(links_a, links_b)) if x != y) if len(links_a) == len(links_b) else -1
             ctx.oracle_fail("link-definition-depends-on-spelling", "the same link definition read from two spellings (sections %s, inline "
-                            "atoms %s) gives different links: %s vs %s" % (variant["links"][idx]["section_order"], variant["links"][idx]["inline_atoms"],
+                            "atoms %s, header %s) gives different links: %s vs %s" % (variant["links"][idx].get("section_order"), variant["links"][idx].get("inline_atoms"),
+                                                                            variant["links"][idx].get("header"),
                                                                             json.dumps(links_a[idx])[:500], json.dumps(links_b[idx])[:500]), replay)
         elif out_a != out_b:
             ctx.oracle_fail("link-definition-depends-on-spelling", "the same force field in two spellings gives different molecules: only "
@@ -528,9 +553,54 @@ def run_link_spelling_pairs(ctx, pairs):
         ctx.traces += 1
 
 
+# ------------------------------------------------------------------------------------------ one force field, two molecules
+
+def run_history(ctx, count):
+    """process history: the SAME ForceField object mapped and linked twice (two chains of a system made through the
+    library API) — the second molecule must be the first one again (the first is what the main stream checks).
+    Force fields without by_atom_id links (their in-place rewrite is notes/C02_findings.md, observation 6)."""
+    import networkx as nx
+    from polyply.src.meta_molecule import MetaMolecule
+    from polyply.src.map_to_molecule import MapToMolecule
+    from polyply.src.apply_links import ApplyLinks
+    rng = ctx.rng
+    for _ in range(count):
+        case = G.gen_case(rng, max_res=ctx.budget(5, 8))
+        replay = dict(stream="history", case=case)
+        try:
+            with tempfile.TemporaryDirectory() as tmp:
+                force_field, meta = G.build(case, tmp)
+            outs = []
+            for turn in range(2):
+                if turn:
+                    graph = nx.Graph()
+                    graph.add_nodes_from((k, dict(d)) for k, d in original_nodes)
+                    graph.add_edges_from((u, v, dict(d)) for u, v, d in original_edges)
+                    meta = MetaMolecule(graph, force_field=force_field, mol_name="verif")
+                else:
+                    original_nodes = [(k, {a: v for a, v in d.items() if a in ("resid", "resname", "from_itp")}) for k, d in meta.nodes(data=True)]
+                    original_edges = [(u, v, dict(d)) for u, v, d in meta.edges(data=True)]
+                MapToMolecule(force_field).run_molecule(meta)
+                ApplyLinks().run_molecule(meta)
+                outs.append(G.dump_output(meta))
+        except G.Unsupported as err:
+            ctx.tally(unsupported=str(err)[:40])
+            continue
+        except Exception as err:  # pylint: disable=broad-except
+            ctx.oracle_fail("pipeline-raises", "second molecule from one force-field object: %s: %s" % (type(err).__name__, str(err)[:200]), replay)
+            continue
+        if outs[0] != outs[1]:
+            ctx.oracle_fail("history-changes-output", "the second molecule made from the same ForceField object differs from the first: only "
+                            "first %s only second %s | graph %s" % ([x for x in outs[0]["ixns"] if x not in outs[1]["ixns"]][:3],
+                                                                   [x for x in outs[1]["ixns"] if x not in outs[0]["ixns"]][:3], case["graph"]), replay)
+        ctx.case(("history", json.dumps(replay, sort_keys=True)), stream="history")
+        ctx.traces += 1
+
+
 # ------------------------------------------------------------------------------------------ explicit links
 
-XSECTIONS = {"bonds": 2, "constraints": 2, "angles": 3, "dihedrals": 4}
+# every section an explicit link may carry (the code adds edges between consecutive atoms whatever the section)
+XSECTIONS = {"bonds": 2, "constraints": 2, "pairs": 2, "exclusions": 2, "angles": 3, "dihedrals": 4}
 
 
 def explicit_link_text(links):
@@ -688,7 +758,7 @@ def gen_explicit_links(rng, state):
             if ixns and rng.random() < 0.2:
                 tokens, meta = list(ixns[-1][1]), dict(ixns[-1][3])       # later wins inside the explicit links
                 section = ixns[-1][0]
-            params = [rng.choice(["1", "2"]), "0.%d" % rng.randint(1, 9), str(rng.randint(10, 999))]
+            params = [] if section == "exclusions" else [rng.choice(["1", "2"]), "0.%d" % rng.randint(1, 9), str(rng.randint(10, 999))]
             ixns.append([section, tokens, params, meta])
         ixns.sort(key=lambda x: list(XSECTIONS).index(x[0]))     # sections are contiguous in a file
         links.append(ixns)
@@ -856,6 +926,14 @@ def small_exhaustive_cases(known=()):
                         ixns=[["bonds", ["BB", prefix + "BB"], ["1", "0.4", "200"], {}]], edges=[], nonedges=[], patterns=[])
             graph = dict(nodes=[[i, resids[i], "A"] for i in range(3)], edges=[[0, 1, None], [1, 2, None]])
             cases.append(dict(blocks=[copy.deepcopy(block)], links=[link], graph=graph))
+    # more than 20 of what is counted: a chain of 24 residues (resids from 7) with next and next-but-one residue links
+    for prefix in ["+", "++", ">"]:
+        link = dict(atoms=[["BB", {"resname": "A"}], [prefix + "BB", {"resname": "A"}]],
+                    ixns=[["bonds", ["BB", prefix + "BB"], ["1", "0.4", "200"], {}]], edges=[], nonedges=[], patterns=[])
+        if prefix == ">":
+            link["edges"] = [["BB", ">BB", None]]
+        graph = dict(nodes=[[i, i + 7, "A"] for i in range(24)], edges=[[i, i + 1, None] for i in range(23)])
+        cases.append(dict(blocks=[copy.deepcopy(block)], links=[link], graph=graph))
     if "link-without-resname-skipped" in known:
         # the listed finding, deterministically: a next-residue link none of whose atoms names a residue
         link = dict(atoms=[["SC1", {}], ["+BB", {}]], ixns=[["bonds", ["SC1", "+BB"], ["1", "0.4", "200"], {}]],
@@ -950,6 +1028,7 @@ def run(ctx):
     run_main(ctx, vf2, known, stream="vf2-exhaustive")
     run_dangling(ctx, ctx.budget(60, 600))
     run_link_spelling(ctx, ctx.budget(120, 1500))
+    run_history(ctx, ctx.budget(60, 800))
     run_explicit_direct(ctx)
     run_explicit_pipeline(ctx, ctx.budget(60, 800))
 
@@ -969,6 +1048,12 @@ def replay(ctx, data):
             run_parse_edges(ctx)
         elif item.get("stream") == "dangling":
             run_dangling_items(ctx, [item])
+        elif item.get("stream") == "history":
+            saved, G.gen_case = G.gen_case, (lambda *a, **k: item["case"])
+            try:
+                run_history(ctx, 1)
+            finally:
+                G.gen_case = saved
         elif item.get("stream") == "link-spelling":
             run_link_spelling_pairs(ctx, [(item["case"], item["variant"])])
         elif item.get("stream") == "explicit":
